@@ -95,7 +95,33 @@ func (f faultFS) Writer(p string) (filesystem.Writer, error) {
 	if f.hit() {
 		return nil, errInjected
 	}
-	return f.inner.Writer(p)
+	w, err := f.inner.Writer(p)
+	if err != nil {
+		return nil, err
+	}
+	return &faultWriter{w: w, f: f}, nil
+}
+
+// faultWriter: Write and Close of a remote writer are fault positions too (a remote that fails
+// while flushing). A failing Close still releases the underlying handle.
+type faultWriter struct {
+	w filesystem.Writer
+	f faultFS
+}
+
+func (fw *faultWriter) Write(b []byte) (int, error) {
+	if fw.f.hit() {
+		return 0, errInjected
+	}
+	return fw.w.Write(b)
+}
+
+func (fw *faultWriter) Close() error {
+	if fw.f.hit() {
+		fw.w.Close()
+		return errInjected
+	}
+	return fw.w.Close()
 }
 func (f faultFS) ReadDir(p string) ([]os.FileInfo, error)    { return f.inner.ReadDir(p) }
 func (f faultFS) IsExist(p string) bool                      { return f.inner.IsExist(p) }
@@ -276,7 +302,7 @@ func runCache(o *Out, rng *RNG, tier string, prop string) {
 			if j == nextCommit {
 				fa := 0
 				if r.Chance(35) {
-					fa = 1 + r.Intn(6)
+					fa = 1 + r.Intn(12)
 				}
 				doCommit(fa)
 				if fa > 0 && r.Chance(70) {
